@@ -368,3 +368,73 @@ package loader
 //@   props C08
 //@   maypanic
 //@   ensures panics && typeis(pv, errors.ErrorCode) && unbox(pv, errors.ErrorCode) == errors.ErrLoader
+
+// ---- C03: the value of `allOf`: one quoted name or an array of them, kept in order ----
+//@ func (*allOfValueLoader).arrayItemValue(lex)
+//@   props C03
+//@   requires l != nil && l.allOfConstraint != nil && lexWF(lex) && lex.end + 1 - lex.begin <= 1000000000000
+//@   maypanic
+//@   modifies l.stateFunc, l.allOfConstraint.schemaName, l.allOfConstraint.schemaName[*]
+//@   ensures lex.lexEventType == lexeme.LiteralBegin ==> normal && l.stateFunc == old(l.stateFunc) && len(l.allOfConstraint.schemaName) == old(len(l.allOfConstraint.schemaName))
+//@   ensures lex.lexEventType != lexeme.LiteralBegin && lex.lexEventType != lexeme.LiteralEnd ==> panics
+//@   ensures lex.lexEventType == lexeme.LiteralEnd ==> (panics <==> !old(strLit(lexBytes(lex)) && userTypeName(unqOf(lexBytes(lex)))))
+//@   ensures lex.lexEventType == lexeme.LiteralEnd && normal ==> boundis(l.stateFunc, allOfValueLoader, "arrayItemEnd")
+//@           && len(l.allOfConstraint.schemaName) == old(len(l.allOfConstraint.schemaName)) + 1 && spells(old(unqOf(lexBytes(lex))), l.allOfConstraint.schemaName[old(len(l.allOfConstraint.schemaName))])
+//@           && (forall j :: 0 <= j && j < old(len(l.allOfConstraint.schemaName)) ==> l.allOfConstraint.schemaName[j] == old(l.allOfConstraint.schemaName[j]))
+//@ func (*allOfValueLoader).scalarValue(lex)
+//@   props C03
+//@   requires l != nil && l.allOfConstraint != nil && lexWF(lex) && lex.end + 1 - lex.begin <= 1000000000000
+//@   maypanic
+//@   modifies l.stateFunc, l.inProgress, l.allOfConstraint.schemaName, l.allOfConstraint.schemaName[*]
+//@   ensures panics <==> !(lex.lexEventType == lexeme.LiteralEnd && old(strLit(lexBytes(lex)) && userTypeName(unqOf(lexBytes(lex)))))
+//@   ensures normal ==> !l.inProgress && boundis(l.stateFunc, allOfValueLoader, "endOfLoading")
+//@           && len(l.allOfConstraint.schemaName) == old(len(l.allOfConstraint.schemaName)) + 1 && spells(old(unqOf(lexBytes(lex))), l.allOfConstraint.schemaName[old(len(l.allOfConstraint.schemaName))])
+//@ func (*allOfValueLoader).begin(lex)
+//@   props C03
+//@   requires l != nil
+//@   maypanic
+//@   modifies l.stateFunc
+//@   ensures panics <==> !(lex.lexEventType == lexeme.ArrayBegin || lex.lexEventType == lexeme.LiteralBegin)
+//@   ensures lex.lexEventType == lexeme.ArrayBegin ==> boundis(l.stateFunc, allOfValueLoader, "arrayItemBeginOrArrayEnd")
+//@   ensures lex.lexEventType == lexeme.LiteralBegin ==> boundis(l.stateFunc, allOfValueLoader, "scalarValue")
+//@ func (*allOfValueLoader).arrayItemBeginOrArrayEnd(lex)
+//@   props C03
+//@   requires l != nil
+//@   maypanic
+//@   modifies l.stateFunc, l.inProgress
+//@   ensures panics <==> !(lex.lexEventType == lexeme.ArrayItemBegin || lex.lexEventType == lexeme.ArrayEnd)
+//@   ensures lex.lexEventType == lexeme.ArrayItemBegin ==> boundis(l.stateFunc, allOfValueLoader, "arrayItemValue") && l.inProgress == old(l.inProgress)
+//@   ensures lex.lexEventType == lexeme.ArrayEnd ==> boundis(l.stateFunc, allOfValueLoader, "endOfLoading") && !l.inProgress
+//@ func (*allOfValueLoader).arrayItemEnd(lex)
+//@   props C03
+//@   requires l != nil
+//@   maypanic
+//@   modifies l.stateFunc
+//@   ensures panics <==> lex.lexEventType != lexeme.ArrayItemEnd
+//@   ensures normal ==> boundis(l.stateFunc, allOfValueLoader, "arrayItemBeginOrArrayEnd")
+
+// ---- C18: the value of `enum`: literals in order, a note belongs to the item before it ----
+//@ func (*enumValueLoader).literal(lex)
+//@   props C18
+//@   requires l != nil && l.enumConstraint != nil && l.enumConstraint.uniqueIdx != nil && lexWF(lex) && lex.end + 1 - lex.begin <= 1000000000000
+//@   maypanic
+//@   modifies l.stateFunc, l.lastIdx, l.enumConstraint.items, l.enumConstraint.items[*], l.enumConstraint.uniqueIdx[*]
+//@   ensures lex.lexEventType == lexeme.LiteralBegin ==> normal && l.stateFunc == old(l.stateFunc) && len(l.enumConstraint.items) == old(len(l.enumConstraint.items))
+//@   ensures lex.lexEventType != lexeme.LiteralBegin && lex.lexEventType != lexeme.LiteralEnd ==> panics
+//@   ensures lex.lexEventType == lexeme.LiteralEnd && normal ==> boundis(l.stateFunc, enumValueLoader, "arrayItemEnd") && l.lastIdx == old(len(l.enumConstraint.items))
+//@           && len(l.enumConstraint.items) == old(len(l.enumConstraint.items)) + 1
+//@           && l.enumConstraint.items[l.lastIdx].value == old(eText(lexBytes(lex))) && l.enumConstraint.items[l.lastIdx].jsonType == old(eKind(lexBytes(lex))) && len(l.enumConstraint.items[l.lastIdx].comment) == 0
+//@           && (forall j :: 0 <= j && j < old(len(l.enumConstraint.items)) ==> l.enumConstraint.items[j] == old(l.enumConstraint.items[j]))
+//@ func (*enumValueLoader).commentEnd(lex)
+//@   props C18
+//@   requires l != nil && l.enumConstraint != nil && lexWF(lex) && 0 <= l.lastIdx
+//@   maypanic
+//@   modifies l.stateFunc, l.enumConstraint.items[*]
+//@   ensures panics <==> lex.lexEventType != lexeme.InlineAnnotationTextEnd
+//@   ensures normal ==> boundis(l.stateFunc, enumValueLoader, "annotationEnd")
+//@   ensures normal && 0 <= l.lastIdx && l.lastIdx < len(l.enumConstraint.items) ==> spells(old(lexBytes(lex)), l.enumConstraint.items[l.lastIdx].comment) && l.enumConstraint.items[l.lastIdx].value == old(l.enumConstraint.items[l.lastIdx].value)
+//@   ensures normal ==> (forall j :: 0 <= j && j < len(l.enumConstraint.items) && j != l.lastIdx ==> l.enumConstraint.items[j] == old(l.enumConstraint.items[j]))
+//@ func newEnumValueLoader(enumConstraint, rules)
+//@   props C18
+//@   nopanic
+//@   ensures fresh(result) && result.enumConstraint == enumConstraint && result.rules == rules && result.inProgress && boundis(result.stateFunc, enumValueLoader, "begin") && result.lastIdx == 0
